@@ -311,6 +311,12 @@ func classify(rec *Record) (key, what string) {
 			}
 		}
 		return "panic/" + rec.where + "/" + input, "the copier panics: " + rec.Msg
+	case "diverges":
+		cyc := "acyclic"
+		if g.hasCycle() {
+			cyc = "cyclic-graph"
+		}
+		return "terminates/unbounded-recursion/" + cyc, "the copier does not terminate: " + rec.Msg
 	case "error":
 		return "error/" + errClass(rec.errText), "the copier returns an error for a conforming source: " + rec.Msg
 	case "closeerr":
@@ -429,6 +435,36 @@ func unsupportedExpected(g Graph, rec *Record) bool {
 				return true
 			}
 			todo = g[n].V.refs(todo)
+		}
+	}
+	return false
+}
+
+// hasCycle: some object is reachable from itself.
+func (g Graph) hasCycle() bool {
+	succ := func(n int) []int {
+		switch g.kind(n) {
+		case "ref":
+			return []int{g[n].To}
+		case "val":
+			return g[n].V.refs(nil)
+		}
+		return nil
+	}
+	for _, start := range g.nums() {
+		seen := map[int]bool{}
+		todo := succ(start)
+		for len(todo) > 0 {
+			n := todo[0]
+			todo = todo[1:]
+			if n == start {
+				return true
+			}
+			if seen[n] {
+				continue
+			}
+			seen[n] = true
+			todo = append(todo, succ(n)...)
 		}
 	}
 	return false
